@@ -46,6 +46,11 @@ CLAIMS = {
          "equals and compare use == and partial_cmp of one std type per pair (f64, bool, str), lists and records are compared structurally with an exact `!=` length test and by-key lookup, other kinds are never equal / never ordered, compare's pairs are a subset of equals' (R3); "
          "list ordering returns the first non-Equal element ordering, then len(left) vs len(right) (R4); the unchecked built-ins answer false, never an error, when incomparable (R5). Transitivity and trichotomy follow from std's orders and are not re-proved.",
          BASE_NOTE, "DESIGN.md §4 C12"),
+ "C13": ("provenance pairing at every FunctionDef::call site (lexically scoped HIR normaliser) + sibling agreement of argument-list construction and result handling across operator and built-in forms",
+         "Exhaustive static decision, over all 16 FunctionDef::call sites, that the definition comes from get_function_def(F) and `this` is that same F (R1); that via/where/map/filter/every/some pass [item, Number(idx)] exactly when arity().can_accept(2) of that definition, reduce [acc, item, idx] on can_accept(3), "
+         "and key functions / into / scalar via one argument (R2); that where/filter keep the item iff as_bool(result), via/map collect the result, every/some short-circuit with the right constants, reduce threads the accumulator from args[2] (R3); "
+         "and that equivalent forms account call depth alike (R4: two recorded known findings - the built-in forms add depth the operator forms do not).",
+         BASE_NOTE, "DESIGN.md §4 C13"),
  "C17": ("exact-rational lint of the literal unit table + MIR dominance / who-may-call on units::convert",
          "Exhaustive static decision, for every row of the literal unit catalogue, of: identifier uniqueness (R1), metric/binary prefix "
          "ratios in exact rationals (R2/R2b), positive literal coefficients (R3), temperature maps composing to the identity symbolically (R4), "
